@@ -217,7 +217,7 @@ impl Prop for C01 {
             .prop_map(|(d, ring, (h, t), reduced, threads, route)| Case { d, ring, h, t, reduced, threads, route }).boxed()
     }
     fn cases(tier: Tier) -> u32 { tier.pick(5_000, 40_000) }
-    fn shards(_: Tier) -> usize { 8 }
+    fn shards(tier: Tier) -> usize { tier.pick(8, 16) }
     fn replay_repeats() -> usize { 5 }
     fn run(case: &Case, ctx: &Ctx) -> Outcome { to_outcome(run_case(case, ctx.tier)) }
 }
